@@ -39,14 +39,20 @@ TRUSTED = ['Coq 8.16.1 kernel (coqc; coqchk in the thorough tier)',
            'numpy linspace/diff/ceil/ufuncs and scipy interp1d(kind=linear) are modelled, observed through the tie',
            'scipy splines (quadratic/cubic) are used as their own reference (test, not proof)']
 ASSUMPTIONS = ['spectra are well formed (strictly increasing positive wavelengths, equal lengths); numeric sampling > 0',
-               'wavelength units m/um/nm/angstrom (waveunit None is outside the domain); fill_value a number or a 2-tuple',
+               'wavelength units m/um/nm/angstrom (waveunit None is outside the domain); fill_value a number or a 2-tuple (a 2-element list/array is refused by scipy interp1d)',
+               'scalar/vector operands on integer-stored spectra follow numpy integer semantics (uint8 wrap-around, bool, int ** negative int raise): not generated',
                'exact regime: dyadic wavelengths with power-of-two spacings and small integer/dyadic values, so that every '
                'float operation is exact and results are compared for equality of rationals',
                'unit-agnosticism is stated for valueunit None (a density value unit is rescaled by Spectrum.to by design)']
 RULE = ('corpus first; random pairs of spectra with identical / nested / overlapping / touching / disjoint ranges, uniform and '
         'non-uniform grids (1..8 samples), 5 operators, sampling min/left/right/numeric, fill scalar/pair, dunder and method '
-        'calls, all 16 unit pairs, value units; plus scalar, vector (equal, length-1, unequal), unsupported operands, reflected '
-        'forms, sample() with a foreign unit, constructor refusals; non-trivial = the operand grids differ; distinct by hash')
+        'calls, all 16 unit pairs, value units; storage family: the same numbers as int64/int32/int16/uint8/bool/float32 arrays, '
+        'Python lists/tuples, long/upper-case unit spellings, int / numpy-scalar / 0-d-array fill and sampling arguments, each '
+        'compared with its float64 twin; same-numbers family: wave arrays numerically equal (or all but one point, one longer/'
+        'shorter) in different units, both orders; histories: 2-4 calls on live objects (both operand orders, self-combination, '
+        'sample(), user .to()), each call compared with the same call on freshly built objects; plus scalar, vector (equal, '
+        'length-1, unequal), unsupported operands, reflected forms, sample() with a foreign unit, constructor refusals; '
+        'non-trivial = the operand grids differ; distinct by hash')
 
 UNITS = ['m', 'um', 'nm', 'angstrom']
 VUNITS = [None, 'photlam', 'flam', 'wlam']
@@ -453,7 +459,9 @@ def analyse(c):
     ratio = (mx - mn) / dw
     num = math.ceil(ratio)
     exact = exact and rep(ratio) and rep(mx - mn) and rep(dw)
-    if num > 0:
+    if num > 20000:
+        exact = False       # never generated; only rejected candidates of the generators get here
+    elif num > 0:
         step = (mx - mn) / num
         exact = exact and rep(step) and all(rep(i * step) and rep(i * step + mn) for i in range(num + 1))
     near = abs(ratio - round(ratio)) <= EDGE * max(1, abs(ratio))
@@ -929,7 +937,7 @@ def gen_spec(rng, tier):
 
 SPELL = {'m': ['meter', 'M', 'Meter'], 'um': ['micron', 'Um', 'MICRON'], 'nm': ['nanometer', 'NM', 'Nanometer'],
          'angstrom': ['Angstrom', 'ANGSTROM']}
-MAXNUM = 4000
+MAXNUM = 1500
 
 
 def storage_choices(vals, density):
@@ -1012,7 +1020,7 @@ def gen_samenum(rng, tier):
         uniform = rng.random() < 0.75
         start = F(rng.randint(1, 8)) * (F(1, 2) if rng.random() < 0.3 else 1)
         w = [start + i * d for i in range(n)] if uniform else rnd_grid(rng, start, n, True, False)
-        ua, ub = rng.choice([('nm', 'angstrom'), ('angstrom', 'nm'), ('um', 'nm'), ('nm', 'um'), ('um', 'um'), ('m', 'um')])
+        ua, ub = rng.choice([('nm', 'angstrom'), ('angstrom', 'nm'), ('um', 'nm'), ('nm', 'um'), ('um', 'um'), ('angstrom', 'angstrom')])
         w2 = list(w)
         var = rng.choice(['same', 'same', 'same', 'onepoint', 'extra', 'shorter'])
         if var == 'onepoint':
@@ -1092,6 +1100,11 @@ def gen_other(rng):
     o = rng.choice(OPS)
     refl = rng.random() < 0.35
     t = rng.random()
+    if rng.random() < 0.3 and all(F(x).denominator == 1 for x in s['value']):
+        # integer storage (numpy integer semantics - uint8 wrap-around, bool, int ** negative int - are numpy's, not generated)
+        s['vdt'] = rng.choice(['int64', 'int32', 'pylist', 'pytuple'])
+        if o == 'pow':
+            o = 'mul'
     if t < 0.4:
         cval = rng.choice([0, 1, 2, 3, -1, -2, F(1, 2), F(-3, 4), 4])
         if o == 'pow' and not refl:
